@@ -31,9 +31,10 @@ type c07In struct {
 	wrote   bool // the handler program wrote a matching top-level reply
 	hErr    bool
 	collide bool
+	decoy   bool
 }
 
-var c07Progs = []string{"nothing", "reply-result", "reply-error", "reply-emptyns", "other-id", "get-same-id", "set-same-id", "msg-then-reply", "reply-then-msg", "nested-iq", "presence-then-error-reply"}
+var c07Progs = []string{"nothing", "reply-result", "reply-error", "reply-emptyns", "other-id", "get-same-id", "set-same-id", "msg-then-reply", "reply-then-msg", "nested-iq", "presence-then-error-reply", "message-same-id-ns", "presence-same-id-ns", "reply-result", "reply-error"}
 
 func el(space, local string, attrs ...string) xml.StartElement {
 	st := xml.StartElement{Name: xml.Name{Space: space, Local: local}}
@@ -102,6 +103,16 @@ func runC07(rc *RC) {
 		if ch.Chance("workload", 1, 3) {
 			sb.WriteString(` to="me@example.net/sut"`)
 		}
+		if ch.Chance("workload", 1, 5) {
+			// extension attributes in a foreign namespace named like the stanza's own attributes: they mean nothing
+			in.decoy = true
+			sb.WriteString(` xmlns:x="urn:verif:x"`)
+			for _, d := range [][2]string{{"from", "mallory@example.org/m"}, {"type", []string{"get", "set", "result"}[ch.Int("workload", 3)]}, {"id", "decoy-id"}, {"to", "nobody@example.org"}} {
+				if ch.Chance("workload", 1, 2) {
+					fmt.Fprintf(&sb, ` x:%s="%s"`, d[0], d[1])
+				}
+			}
+		}
 		fmt.Fprintf(&sb, `><%s xmlns="urn:verif" n="%d"><c/>text</%s></%s>`, in.payload, i, in.payload, in.kind)
 		in.xml = sb.String()
 		ins = append(ins, in)
@@ -137,7 +148,7 @@ func runC07(rc *RC) {
 		}
 	}
 	errAt := -1
-	program := func(in *c07In, t xmlstream.TokenReadEncoder) error {
+	program := func(in *c07In, t xmlstream.TokenReadEncoder, parsed *stanza.IQ) error {
 		in.invoked = true
 		in.prog = ch.Int("handler", len(c07Progs))
 		rd := ch.Int("handler", 3)
@@ -152,7 +163,15 @@ func runC07(rc *RC) {
 		}
 		marker := fmt.Sprintf("H%d", in.idx)
 		h := xmlstream.Wrap(nil, el("urn:verif", "h", "m", marker))
+		viaParsed := parsed != nil && ch.Chance("handler", 1, 2)
 		reply := func(typ, id string) xml.TokenReader {
+			if viaParsed && id == in.id && (typ == "result" || typ == "error") {
+				// the way extension handlers answer: from the IQ value the multiplexer parsed
+				if typ == "result" {
+					return parsed.Result(h)
+				}
+				return stanza.IQ{ID: parsed.ID, To: parsed.From, Type: stanza.ErrorIQ}.Wrap(h)
+			}
 			return xmlstream.Wrap(h, el(ns, "iq", "type", typ, "id", id, "to", in.from))
 		}
 		msg := xmlstream.Wrap(xmlstream.Wrap(xmlstream.Token(xml.CharData("hi")), el("", "body")), el("", "message", "to", "x@example.net"))
@@ -176,6 +195,11 @@ func runC07(rc *RC) {
 			parts, in.wrote = []xml.TokenReader{msg, reply("result", in.id)}, true
 		case "reply-then-msg":
 			parts, in.wrote = []xml.TokenReader{reply("error", in.id), msg}, true
+		case "message-same-id-ns":
+			// a stanza of another kind in the stream's namespace that happens to carry the request's id is not a reply
+			parts = []xml.TokenReader{xmlstream.Wrap(h, el(e.NS, "message", "type", []string{"chat", "error", "result"}[ch.Int("handler", 3)], "id", in.id, "to", in.from))}
+		case "presence-same-id-ns":
+			parts = []xml.TokenReader{xmlstream.Wrap(h, el(e.NS, "presence", "type", []string{"unavailable", "error", "result"}[ch.Int("handler", 3)], "id", in.id, "to", in.from))}
 		case "nested-iq":
 			parts = []xml.TokenReader{xmlstream.Wrap(reply("result", in.id), el("", "message", "to", "x@example.net"))}
 		case "presence-then-error-reply":
@@ -222,7 +246,7 @@ func runC07(rc *RC) {
 		return program(in, struct {
 			xml.TokenReader
 			xmlstream.Encoder
-		}{xmlstream.MultiReader(sliceReader(buf), t), t})
+		}{xmlstream.MultiReader(sliceReader(buf), t), t}, nil)
 	})
 	switch variant {
 	case 0:
@@ -238,7 +262,7 @@ func runC07(rc *RC) {
 			if k < 0 || k >= len(ins) {
 				return nil
 			}
-			return program(ins[k], t)
+			return program(ins[k], t, &iq)
 		})
 		handler = mux.New(e.NS, mux.IQ(stanza.GetIQ, xml.Name{Space: "urn:verif", Local: "q"}, iqh), mux.IQ(stanza.SetIQ, xml.Name{Space: "urn:verif", Local: "q"}, iqh))
 	default:
@@ -343,6 +367,8 @@ func runC07(rc *RC) {
 			if in.wrote {
 				if !r.handler || r.auto {
 					rc.Failf("C07.c2", "not-handlers-reply:"+prog, "incoming %s: handler wrote its own reply (%s) but the wire carries %+v", in.xml, prog, r)
+				} else if r.to != in.from {
+					rc.Failf("C07.c1", "reply-misaddressed:handler", "incoming %s: the reply built from the parsed IQ is addressed to %q", in.xml, r.to)
 				}
 			} else {
 				if !r.auto || r.typ != "error" {
